@@ -344,7 +344,8 @@ type Script struct {
 	asserts  []string
 	counter  int
 	// consts: name -> sort, for model extraction
-	consts map[string]string
+	consts     map[string]string
+	seenAssert map[string]bool
 }
 
 func NewScript() *Script {
@@ -405,6 +406,16 @@ func sanitize(s string) string {
 func (s *Script) Assert(t Term) {
 	if t.S == "true" {
 		return
+	}
+	if len(t.S) < 200 {
+		// short facts (type ranges, allocation bounds) are re-asserted at every use: keep one copy
+		if s.seenAssert == nil {
+			s.seenAssert = map[string]bool{}
+		}
+		if s.seenAssert[t.S] {
+			return
+		}
+		s.seenAssert[t.S] = true
 	}
 	s.asserts = append(s.asserts, "(assert "+t.S+")")
 }
